@@ -167,6 +167,27 @@ def _positional_interpolations(fn: ast.AST):
     return out
 
 
+def interpolation_by_time(chk, prog, rule: str):
+    """(shared with C14.i) every interpolation of the water-table series is time-weighted: interpolation by position runs over the union of the
+    observations and the simulation days, so the depth between two observations depends on how many simulation days lie between them - i.e.
+    on the start and end date of the window - and on observations outside it."""
+    ex = ast.parse(_POSITIVE_EXAMPLE).body[0]
+    if len(_positional_interpolations(ex)) != 1:
+        raise AnalysisError(f"{rule}: the rule no longer recognises its positive example")
+    fi = prog.find_func("read_groundwater_table")
+    chk.fn(fi.key)
+    where = f"{fi.module}:{fi.qualname}"
+    interps = [c for c in walk_no_nested(fi.node) if isinstance(c, ast.Call) and isinstance(c.func, ast.Attribute) and c.func.attr == "interpolate"]
+    bad = _positional_interpolations(fi.node)
+    for c in interps:
+        if c in bad:
+            chk.violation(rule, where, norm(c)[:80], "interpolation by position over the observations and the simulation days: the depth on a day inside a completed "
+                          "season depends on where the window starts and ends (and on observations outside it)", loc=fi.loc(c))
+        else:
+            chk.ok(rule, where, norm(c)[:80], "time-weighted interpolation on the observations' own dates: independent of the window")
+    chk.floor(rule, len(interps), 1, "interpolations of the water-table series")
+
+
 def rule_e(chk, prog):
     """the daily water-table series follows the observations: it is interpolated on the observations' own dates (time-weighted, not by
     position) and has exactly one entry per simulation day (no label store that can append an entry for a date outside the period)"""
